@@ -257,6 +257,9 @@ func (x *Exec) load(st *State, a *Addr, ob string) Val {
 		}
 		v := o.Vals[a.Path[0]]
 		cur := v
+		if len(a.Path) == 1 {
+			return cur
+		}
 		var ct types.Type
 		if o.Kind == objStruct {
 			ct = o.SI.Fields[a.Path[0]].Type
@@ -310,6 +313,15 @@ func (x *Exec) load(st *State, a *Addr, ob string) Val {
 		}
 		if tk := U.typeOKEager(cur.T, cur.GT); tk != "" {
 			st.assume(tk)
+		}
+		// heap hygiene: a reference stored in the heap denotes an object that existed when it was stored
+		if cur.S == "Int" && len(a.Path) == 1 {
+			switch cur.GT.Underlying().(type) {
+			case *types.Pointer, *types.Map:
+				if at := st.heapAt[heapName(si, a.Path[0])]; at != "" {
+					st.assume(fmt.Sprintf("(and (<= 0 %s) (< %s %s))", cur.T, cur.T, at))
+				}
+			}
 		}
 		return cur
 	}
